@@ -48,7 +48,7 @@ def build_argv(job, ini, ods, outdir):
     if a.get("prefix"):
         argv += ["-p", a["prefix"]]
     argv += list(a.get("extra", []))
-    argv += ["-o", outdir, ini, ods + ".missing.ods" if job.get("missing_input") else ods]
+    argv += ["-o", os.path.basename(outdir) if job.get("relative_out") else outdir, ini, ods + ".missing.ods" if job.get("missing_input") else ods]
     return argv
 
 
@@ -140,6 +140,17 @@ _WRITE_EV = {"os.mkdir": "mkdir", "os.rename": "rename", "os.remove": "remove", 
              "shutil.copytree": "write", "os.utime": "write", "tempfile.mkstemp": "write", "tempfile.mkdtemp": "mkdir"}
 
 
+def _here(path):
+    """a relative path means what it meant when the effect happened: relative to the working directory of that moment"""
+    if isinstance(path, bytes):
+        path = path.decode("utf-8", "replace")
+    if isinstance(path, str) or hasattr(path, "__fspath__"):
+        path = os.fspath(path)
+        if isinstance(path, str) and not os.path.isabs(path):
+            return os.path.join(os.getcwd(), path)
+    return path
+
+
 def _audit_hook(event, args):
     if not _AUDIT["on"]:
         return
@@ -149,13 +160,13 @@ def _audit_hook(event, args):
             writing = (isinstance(mode, str) and any(ch in mode for ch in "wax+")) or (
                 isinstance(flags, int) and flags & (os.O_WRONLY | os.O_RDWR | os.O_APPEND | os.O_CREAT | os.O_TRUNC))
             if writing:
-                _AUDIT["events"].append(("write", path))
+                _AUDIT["events"].append(("write", _here(path)))
             else:
                 _AUDIT["reads"] += 1
         elif event in _WRITE_EV:
             for a in args[:2]:
                 if isinstance(a, (str, bytes)) or hasattr(a, "__fspath__"):
-                    _AUDIT["events"].append((_WRITE_EV[event], a))
+                    _AUDIT["events"].append((_WRITE_EV[event], _here(a)))
         elif event in _PROC or event.startswith("os.exec") or event.startswith("os.spawn"):
             _AUDIT["events"].append(("process", f"{event} {str(args)[:120]}"))
         elif event.startswith(_NET):
@@ -265,7 +276,7 @@ def child_main(job, d, result_path):
                 res["effects"].append({"k": k, "loc": _classify(p, d, follow=k in ("write", "mkdir")) if k not in ("socket", "process") else "none", "path": str(p)[-120:]})
             res["inputs_unchanged"] = before is not None and before == (_sha(ini), _sha(ods)) + tuple(_sha(p) if os.path.exists(p) else "" for p in outside)
         res["files"] = sorted(os.listdir(outdir))
-        res["odsinfo"] = {f: ods_info(os.path.join(outdir, f)) for f in res["files"] if f.endswith(".ods")}
+        res["odsinfo"] = {f: ods_info(os.path.join(outdir, f), sorted(job.get("assets") or [])) for f in res["files"] if f.endswith(".ods")}
         if cap.data and cap.data["computed"] is not None and "computed" in job.get("observe", []):
             res["computed"] = observe_computed(job, cap.data["computed"], rowmaps)
             res["methods"] = {str(k): v for k, v in (cap.data["methods"] or {}).items()}
@@ -286,8 +297,9 @@ def child_main(job, d, result_path):
         os._exit(0)
 
 
-def ods_info(path):
-    """is the file a readable ODS document; digest of its content"""
+def ods_info(path, assets=()):
+    """is the file a readable ODS document; digest of its content, of every sheet, and - on the sheets shared by the assets - of the lines
+    that name each asset (formulas, values and texts of their cells: what the shared sheets say about one asset)"""
     try:
         with zipfile.ZipFile(path) as z:
             content = z.read("content.xml")
@@ -300,7 +312,19 @@ def ods_info(path):
             name = tbl.get("{urn:oasis:names:tc:opendocument:xmlns:table:1.0}name")
             body = b"".join(ET.tostring(row) for row in tbl.iter("{urn:oasis:names:tc:opendocument:xmlns:table:1.0}table-row"))
             sheets[name] = hashlib.sha256(body).hexdigest()[:16]
-        return {"readable": True, "digest": hashlib.sha256(content).hexdigest()[:16], "size": len(content), "sheets": sheets}
+        lines = {a: [] for a in assets}
+        T, O = "{urn:oasis:names:tc:opendocument:xmlns:table:1.0}", "{urn:oasis:names:tc:opendocument:xmlns:office:1.0}"
+        for tbl in root.iter(T + "table"):
+            name = tbl.get(T + "name")
+            if any(name.startswith(a + " ") or name.endswith(" " + a) or f"_{a} " in name or f"_{a}_" in name for a in assets):
+                continue        # (an asset's own sheet: covered by its digest above)
+            for row in tbl.iter(T + "table-row"):
+                cells = [(c.get(T + "formula") or "", c.get(O + "value") or "", "".join(c.itertext())) for c in row if c.tag == T + "table-cell"]
+                for a in assets:
+                    if any(x[2] == a for x in cells):
+                        lines[a].append(repr((name, [x for x in cells if x != ("", "", "")])))
+        asset_lines = {a: hashlib.sha256("\n".join(v).encode()).hexdigest()[:16] for a, v in lines.items()}
+        return {"readable": True, "digest": hashlib.sha256(content).hexdigest()[:16], "size": len(content), "sheets": sheets, "asset_lines": asset_lines}
     except Exception as exc:  # pylint: disable=broad-except
         return {"readable": False, "digest": "", "error": str(exc)[:200]}
 
